@@ -473,6 +473,7 @@ Fixpoint oitems (e : elements) (t : template16) : list oitem :=
   | Block k _ _ body :: r => block_oitems (table_of_kind k) (items_of e k) body ++ oitems e r
   | SigBlock _ _ body :: r => block_oitems sig_table (el_sigs e) body ++ oitems e r
   | TransBlock _ _ _ :: r => oitems e r
+  | EvBlock _ _ _ :: r => oitems e r
   | MsgBlock _ _ _ _ :: r => oitems e r
   | InitLine _ :: r => oitems e r
   | TableLine _ _ :: r => oitems e r
@@ -501,9 +502,9 @@ Proof.
   intros Hn. fix IH 1. intros t Ht Hu Hg. destruct t as [|it r]; [split; [reflexivity|split; [constructor|reflexivity]]|].
   cbn [forallb] in Hg. apply andb_prop in Hg as [Hi Hg].
   unfold user_lines_plain in Hu. cbn [forallb] in Hu. apply andb_prop in Hu as [Hu1 Hu]. fold (user_lines_plain e r) in Hu.
-  destruct it as [l|s|k ib ie body|ib ie body|ib ie body|ib ie sfx body|il|ul|pre ee]; cbn [texts_ok07 oitems keys07 flat_map ref_item16] in *; [| | | |discriminate|discriminate|discriminate| |discriminate].
+  destruct it as [l|s|k ib ie body|ib ie body|ib ie body|ib ie body|ib ie sfx body|il|ul|pre ee]; cbn [texts_ok07 oitems keys07 flat_map ref_item16] in *; [| | | |discriminate|discriminate|discriminate|discriminate| |discriminate].
   - destruct (is_tag (tab4 (l ++ nl_str))) eqn:T.
-    + destruct r as [|[l'| | | | | | | |] r']; try discriminate. apply andb_prop in Ht as [Ht Hr]. apply andb_prop in Ht as [El Hp].
+    + destruct r as [|[l'| | | | | | | | |] r']; try discriminate. apply andb_prop in Ht as [Ht Hr]. apply andb_prop in Ht as [El Hp].
       apply String.eqb_eq in El. subst l'. cbn [forallb] in Hg. apply andb_prop in Hg as [_ Hg].
       unfold user_lines_plain in Hu. cbn [forallb] in Hu. apply andb_prop in Hu as [_ Hu]. fold (user_lines_plain e r') in Hu.
       destruct (IH r' Hr Hu Hg) as (I1 & I2 & I3). unfold closed_pair_ok in Hp.
@@ -615,7 +616,7 @@ Theorem names_wf16 e t :
 Proof.
   intros Hn Hg Hi Hu. unfold wf_elements16, inky, user_lines_plain in *. induction t as [|it t IH]; [reflexivity|].
   cbn [forallb] in *. apply andb_prop in Hg as [G1 G2]. apply andb_prop in Hi as [I1 I2]. apply andb_prop in Hu as [U1 U2]. rewrite (IH G2 I2 U2), andb_true_r.
-  destruct it as [l|s|k ib ie body|ib ie body|ib ie body|ib ie sfx body|il|ul|pre ee]; cbn [item16_wf item16_ok] in *; try reflexivity; [| |discriminate|discriminate|discriminate| |discriminate].
+  destruct it as [l|s|k ib ie body|ib ie body|ib ie body|ib ie body|ib ie sfx body|il|ul|pre ee]; cbn [item16_wf item16_ok] in *; try reflexivity; [| |discriminate|discriminate|discriminate|discriminate| |discriminate].
   - apply andb_prop in G1 as [_ G1]. apply (block_wf_names (table_of_kind k) (keys_of k) (keys_same k)); try assumption.
     intros x i Hx. apply kind_table_ident. exact (items_names e k x Hn Hx).
   - apply andb_prop in G1 as [_ G1]. apply (block_wf_names sig_table sig_keys sig_keys_same); try assumption.
